@@ -35,6 +35,18 @@ SawShortEOF(c, evs, u) == \E k \in 1..Len(evs) : evs[k][2] = 0 /\ evs[k][1] > 0 
 ZeroEvents(evs) == Cardinality({k \in 1..Len(evs) : evs[k][2] <= 0})
 
 IsRaw(c) == c.wrapper = "raw"
+
+\* Documented subclass hooks (scenario parameters, absent = the defaults of LimitedStream):
+\*   dq = on_disconnect overridden to return normally (b"" / None) instead of raising
+\*   ex = on_exhausted: "default" (RequestEntityTooLarge iff the limit is a maximum),
+\*        "quiet" (returns normally), "raise" (raises the subclass's own exception HookExhausted)
+\* With a quiet on_disconnect a short body / an OSError ends the read with what was read so far;
+\* the rest of the contract (bounded underlying reads per call, never beyond the limit, prefix of
+\* what was sent, no loss) is unchanged.
+Dq(c) == IF "dq" \in DOMAIN c THEN c.dq ELSE FALSE
+Ex(c) == IF "ex" \in DOMAIN c THEN c.ex ELSE "default"
+TLmode(c) == Ex(c) = "default" /\ c.is_max
+HX == "HookExhausted"
 SliceAt(c, y, B) == y + Len(B) <= Len(c.data) /\ B = SubSeq(c.data, y + 1, y + Len(B))
 
 Sized(op)   == op \in {"read", "read1", "readline", "readinto", "readinto_mv", "readinto1"}
@@ -54,18 +66,19 @@ EndsLF(B) == B # <<>> /\ B[Len(B)] = LF
 OneLine(B) == \A j \in 1..(Len(B) - 1) : B[j] # LF
 
 \* readlines: the pieces partition the result, each piece is one line, all but the last end in LF
-RECURSIVE PiecesOK(_, _, _)
-PiecesOK(B, cuts, off) ==
+\* (strict = FALSE: a quiet on_disconnect hook ended a line early at an OSError / empty read)
+RECURSIVE PiecesOK(_, _, _, _)
+PiecesOK(B, cuts, off, strict) ==
   IF cuts = <<>> THEN off = Len(B)
   ELSE LET k == Head(cuts) IN
        /\ k > 0 /\ off + k <= Len(B)
        /\ OneLine(SubSeq(B, off + 1, off + k))
-       /\ (Tail(cuts) # <<>> => B[off + k] = LF)
-       /\ PiecesOK(B, Tail(cuts), off + k)
+       /\ (strict /\ Tail(cuts) # <<>> => B[off + k] = LF)
+       /\ PiecesOK(B, Tail(cuts), off + k, strict)
 
-ShapeOK(ln, B) ==
+ShapeOK(ln, B, strict) ==
   CASE LineOp(ln.op)        -> OneLine(B)
-    [] ln.op = "readlines"  -> PiecesOK(B, ln.cuts, 0)
+    [] ln.op = "readlines"  -> PiecesOK(B, ln.cuts, 0, strict)
     [] OTHER                -> TRUE
 
 \* "no silent truncation": a call may stop before it satisfied the request only at the limit,
@@ -77,10 +90,11 @@ ShapeOK(ln, B) ==
 \* (for a body of exactly the maximum both outcomes are accepted: the wrapper cannot tell).
 \* exhaust() is documented to return the remaining data "until the limit is reached".
 Complete(c, ln, evs, B, y1) ==
-  LET stopS == y1 = c.limit \/ (c.is_max /\ SawEOF(evs))
-      stopU == \/ ~c.is_max /\ y1 = c.limit
-               \/ c.is_max /\ SawEOF(evs)
-               \/ c.is_max /\ y1 = c.limit /\ Len(c.data) <= c.limit
+  LET eofOK == ((c.is_max \/ Dq(c)) /\ SawEOF(evs)) \/ (Dq(c) /\ SawErr(evs))
+      stopS == y1 = c.limit \/ eofOK
+      stopU == \/ ~TLmode(c) /\ y1 = c.limit
+               \/ eofOK
+               \/ TLmode(c) /\ y1 = c.limit /\ Len(c.data) <= c.limit
       nB == Len(B)
   IN CASE ln.op \in {"read", "readinto", "readinto_mv"} ->
               IF IsRaw(c) THEN nB > 0 \/ stopS ELSE nB = ln.n \/ stopS
@@ -119,23 +133,25 @@ OpVerdict(c, st, ln) ==
   ELSE IF OverRequest(c, evs, u0) \/ u1 > c.limit THEN "NoOverRead"
   ELSE IF ~isB THEN
        IF ln.rk = "exc" /\ ln.rx = CD THEN
-            (IF SawErr(evs) \/ (SawShortEOF(c, evs, u0) /\ ~c.is_max) THEN
+            (IF ~Dq(c) /\ (SawErr(evs) \/ (SawShortEOF(c, evs, u0) /\ ~c.is_max)) THEN
                  (IF ln.pos # u1 THEN "PosAccounting" ELSE "ok")
              ELSE "SpuriousDisconnect")
        ELSE IF ln.rk = "exc" /\ ln.rx = TL THEN
-            (IF c.is_max /\ u1 >= c.limit THEN (IF ln.pos # u1 THEN "PosAccounting" ELSE "ok")
+            (IF TLmode(c) /\ u1 >= c.limit THEN (IF ln.pos # u1 THEN "PosAccounting" ELSE "ok")
              ELSE "SpuriousTooLarge")
+       ELSE IF ln.rk = "exc" /\ ln.rx = HX /\ Ex(c) = "raise" /\ u1 >= c.limit THEN
+            (IF ln.pos # u1 THEN "PosAccounting" ELSE "ok")
        ELSE "OnlyDocumentedExceptions"
   ELSE IF ln.pos # u1 THEN "PosAccounting"
-  ELSE IF SawErr(evs) THEN "DisconnectOnError"
-  ELSE IF SawShortEOF(c, evs, u0) /\ ~c.is_max THEN "DisconnectOnShort"
-  ELSE IF c.is_max /\ u0 >= c.limit /\ st.synced /\ st.ylo = u0 /\ ln.op # "exhaust" /\ ~ReqClose(ln.op) THEN "TooLargeOnMax"
+  ELSE IF SawErr(evs) /\ ~Dq(c) THEN "DisconnectOnError"
+  ELSE IF SawShortEOF(c, evs, u0) /\ ~c.is_max /\ ~Dq(c) THEN "DisconnectOnShort"
+  ELSE IF TLmode(c) /\ u0 >= c.limit /\ st.synced /\ st.ylo = u0 /\ ln.op # "exhaust" /\ ~ReqClose(ln.op) THEN "TooLargeOnMax"
   ELSE IF st.synced /\ ~SliceAt(c, st.ylo, B) THEN "PrefixOfData"
   ELSE IF ~st.synced /\ MatchEnd(c.data, st.ylo, B, 1, u1) < 0 THEN "PrefixOfData"
   ELSE IF st.synced /\ st.ylo + nB > u1 THEN "PrefixOfData"
   ELSE IF st.synced /\ IsRaw(c) /\ st.ylo + nB # u1 /\ ~ReqClose(ln.op) THEN "NoLoss"
   ELSE IF Sized(ln.op) /\ ln.n > 0 /\ nB > ln.n THEN "SizeBound"
-  ELSE IF ~ShapeOK(ln, B) THEN "LineShape"
+  ELSE IF ~ShapeOK(ln, B, ~(Dq(c) /\ (SawErr(evs) \/ SawEOF(evs)))) THEN "LineShape"
   ELSE IF st.synced /\ ~Complete(c, ln, evs, B, st.ylo + nB) THEN "Truncated"
   ELSE IF IntoOp(ln.op) /\ ~BufOK(ln, B) THEN "CallerBufferIntact"
   ELSE "ok"
